@@ -289,7 +289,7 @@ def part_interp(ctx, st, model):
             for (name, x, y) in geoms:
                 for code in range(4 ** nc):
                     add(name, x, y, [(code >> (2 * j)) & 3 for j in range(nc)])
-                st.count("exhaustive_label_space_nc%d" % nc, len(geoms))
+            st.count("geometries_with_exhaustive_label_space_nc%d" % nc, len(geoms))
         else:
             for (name, x, y) in geoms:
                 for _ in range(120):
@@ -442,7 +442,7 @@ def random_recording(rng, k):
     fs = rng.choice([30000, 30000, 30000, 2500, 2600, 2601, 2599.5])
     nc = rng.choice([1, 2, 3, 5, 11, 12, 13, 24, 32, 48, 64, 96])
     ns = rng.choice([256, 512, 1024, 2048])
-    x, rs = background(rng.randrange(1 << 30), nc, ns, fs, indep=rng.choice([5e-6, 5e-6, 20e-6, 60e-6]))
+    x, rs = background(rng.randrange(1 << 30), nc, ns, fs, indep=rng.choice([3e-6, 5e-6, 5e-6, 8e-6, 8e-6, 60e-6]))
     kind = rng.random()
     if kind < 0.05:
         x[:] = 0                                            # flat: reference has no energy -> NaN
